@@ -8,8 +8,16 @@
 //!   C03.allq    n outerTable outerConn L R vars1 vars2 => binary_op_with_for_all on vars1, on vars2
 //!   C03.exists  L vars1 vars2 => exists(vars1) exists(vars2) project(vars1)
 //!   C03.forall  L vars1 vars2 => for_all(vars1) for_all(vars2)
-//!   C03.varex   L x => var_exists(x) var_project(x)
-//!   C03.varall  L x => var_for_all(x)
+//!   C03.varex   L x => var_exists(x) var_project(x) [exists([x]) unless L is huge]
+//!   C03.varall  L x => var_for_all(x) [for_all([x]) unless L is huge]
+//!   C03.exqf / C03.allqf  n outerTable outerConn L R vars1 vars2 form => as exq / allq, `form` says how the two
+//!               operands are passed: `sep` (two separately parsed objects), `alias` (L = R as text, the SAME
+//!               object is passed twice: `(&a, &a)`), `clone` (L = R as text, `(&a, &a.clone())`)
+//!   C03.nestl   n outerTable outerConn L R vars innerTable innerConn form => binary_op_nested with the trigger
+//!               given as a variable LIST (exact membership, no mask), operands passed as `form` says
+//!   C03.chain   n outerTable outerConn A B vars form => r = binary_op_with_exists(A, B), then
+//!               binary_op_with_for_all(r, A) and binary_op_with_exists(r, r) (`alias`) / (r, r.clone()) (`clone`):
+//!               the result of an operation fed back together with its own input
 //! vars2 is a permutation of vars1 with duplicates (same set); both results must be identical.
 #[path = "../common.rs"]
 mod common;
@@ -30,6 +38,29 @@ fn nested_with_inner(l: &Bdd, r: &Bdd, mask: u64, outer: &str, inner: &str) -> O
         t => catch(|| Bdd::binary_op_nested(l, r, trigger, table_fn(outer), table_fn(t))),
     }
 }
+
+/// runs `f` on the two operands, passed as `form` says (see the module comment)
+fn with_pair<T>(l: &str, r: &str, form: &str, f: impl FnOnce(&Bdd, &Bdd) -> T) -> T {
+    match form {
+        "alias" => { assert!(l == r, "alias form needs equal operands"); let a = Bdd::from_string(l); f(&a, &a) }
+        "clone" => { assert!(l == r, "clone form needs equal operands"); let a = Bdd::from_string(l); let b = a.clone(); f(&a, &b) }
+        "sep" => { let a = Bdd::from_string(l); let b = Bdd::from_string(r); f(&a, &b) }
+        _ => panic!("bad form {}", form),
+    }
+}
+
+fn nested_with_list(l: &Bdd, r: &Bdd, vars: &[BddVariable], outer: &str, inner: &str) -> Option<Bdd> {
+    let set: std::collections::HashSet<BddVariable> = vars.iter().cloned().collect();
+    let trigger = move |v: BddVariable| set.contains(&v);
+    match inner {
+        "or" => catch(|| Bdd::binary_op_nested(l, r, trigger, table_fn(outer), op_function::or)),
+        "and" => catch(|| Bdd::binary_op_nested(l, r, trigger, table_fn(outer), op_function::and)),
+        t => catch(|| Bdd::binary_op_nested(l, r, trigger, table_fn(outer), table_fn(t))),
+    }
+}
+
+/// operands above this size do not get the extra `exists([x])` / `for_all([x])` observation
+const HUGE: usize = 20000;
 
 #[allow(deprecated)]
 pub fn run(key: &str, a: &[String], out: &mut Out) {
@@ -74,13 +105,59 @@ pub fn run(key: &str, a: &[String], out: &mut Out) {
             let x = var(a[1].parse::<usize>().unwrap());
             let r1 = catch(|| l.var_exists(x));
             let r2 = catch(|| l.var_project(x));
-            out.case(key, a, &[fmt_res_bdd(&r1), fmt_res_bdd(&r2)]);
+            if l.size() > HUGE {
+                out.case(key, a, &[fmt_res_bdd(&r1), fmt_res_bdd(&r2)]);
+            } else {
+                let r3 = catch(|| l.exists(&[x]));
+                out.case(key, a, &[fmt_res_bdd(&r1), fmt_res_bdd(&r2), fmt_res_bdd(&r3)]);
+            }
         }
         "C03.varall" => {
             let l = Bdd::from_string(&a[0]);
             let x = var(a[1].parse::<usize>().unwrap());
             let r1 = catch(|| l.var_for_all(x));
-            out.case(key, a, &[fmt_res_bdd(&r1)]);
+            if l.size() > HUGE {
+                out.case(key, a, &[fmt_res_bdd(&r1)]);
+            } else {
+                let r2 = catch(|| l.for_all(&[x]));
+                out.case(key, a, &[fmt_res_bdd(&r1), fmt_res_bdd(&r2)]);
+            }
+        }
+        "C03.exqf" | "C03.allqf" => {
+            let (v1, v2) = (parse_vars(&a[5]), parse_vars(&a[6]));
+            let ex = key == "C03.exqf";
+            let (r1, r2) = with_pair(&a[3], &a[4], &a[7], |l, r| {
+                let f = |vs: &[BddVariable]| {
+                    if ex { catch(|| Bdd::binary_op_with_exists(l, r, table_fn(&a[1]), vs)) }
+                    else { catch(|| Bdd::binary_op_with_for_all(l, r, table_fn(&a[1]), vs)) }
+                };
+                (f(&v1), f(&v2))
+            });
+            out.case(key, a, &[fmt_res_bdd(&r1), fmt_res_bdd(&r2)]);
+        }
+        "C03.nestl" => {
+            let vs = parse_vars(&a[5]);
+            let res = with_pair(&a[3], &a[4], &a[8], |l, r| nested_with_list(l, r, &vs, &a[1], &a[6]));
+            out.case(key, a, &[fmt_res_bdd(&res)]);
+        }
+        "C03.chain" => {
+            let (x, y) = (Bdd::from_string(&a[3]), Bdd::from_string(&a[4]));
+            let vs = parse_vars(&a[5]);
+            let r = catch(|| Bdd::binary_op_with_exists(&x, &y, table_fn(&a[1]), &vs));
+            let (r2, r3) = match &r {
+                Some(r) => {
+                    let r2 = catch(|| Bdd::binary_op_with_for_all(r, &x, table_fn(&a[1]), &vs));
+                    let r3 = if a[6] == "alias" {
+                        catch(|| Bdd::binary_op_with_exists(r, r, table_fn(&a[1]), &vs))
+                    } else {
+                        let rc = r.clone();
+                        catch(|| Bdd::binary_op_with_exists(r, &rc, table_fn(&a[1]), &vs))
+                    };
+                    (r2, r3)
+                }
+                None => (None, None),
+            };
+            out.case(key, a, &[fmt_res_bdd(&r), fmt_res_bdd(&r2), fmt_res_bdd(&r3)]);
         }
         _ => panic!("unknown key {}", key),
     }
@@ -157,6 +234,163 @@ fn emit_big(q: &mut Vec<(&'static str, Vec<A>)>, ops: &[(String, String)], out: 
     }
 }
 
+/// a diagram over `n` variables whose support is (a subset of) the increasing list `sup`: the canonical
+/// diagram of the truth table `tt` over `sup.len()` variables with the variables renamed monotonically
+fn wide_bdd(n: usize, sup: &[usize], tt: &[bool]) -> String {
+    let k = sup.len();
+    let nodes: Vec<(usize, usize, usize)> = canon_triples(k, tt).iter()
+        .map(|(v, l, h)| (if *v == k { n } else { sup[*v] }, *l, *h)).collect();
+    fmt_triples(&nodes)
+}
+
+/// a small function over k variables: cube, 2-3 term DNF, parity, random table
+fn small_fn(rng: &mut Rng64, k: usize) -> TT {
+    let size = 1usize << k;
+    let cube = |rng: &mut Rng64| { let m = rng.next() as usize & (size - 1); let v = rng.next() as usize & m; (m | 1, v) };
+    match rng.below(5) {
+        0 => { let (m, v) = cube(rng); (0..size).map(|i| (i & m) == (v & m)).collect() }
+        1 | 2 => {
+            let terms: Vec<(usize, usize)> = (0..(2 + rng.below(2))).map(|_| cube(rng)).collect();
+            (0..size).map(|i| terms.iter().any(|(m, v)| (i & m) == (v & m))).collect()
+        }
+        3 => { let m = (rng.next() as usize & (size - 1)) | 1 | (size >> 1); let neg = rng.bool();
+               (0..size).map(|i| ((i & m).count_ones() % 2 == 1) ^ neg).collect() }
+        _ => random_tt(rng, k),
+    }
+}
+
+/// a support of at most `k` variables below `n` (n > 64): clusters around the word boundaries 64, 128, 256,
+/// 1024, pairs congruent modulo 64 (v, v+64, v+128), first and last variable, random ones
+fn wide_support(rng: &mut Rng64, n: usize, k: usize) -> Vec<usize> {
+    let mut sup: Vec<usize> = vec![];
+    let mut add = |v: usize, sup: &mut Vec<usize>| { if v < n && !sup.contains(&v) && sup.len() < k { sup.push(v); } };
+    let base = rng.below(64) as usize;
+    add(base, &mut sup);
+    add(base + 64 * (1 + rng.below(2) as usize), &mut sup);
+    if rng.bool() { add(base + 128 + 64 * rng.below(3) as usize, &mut sup); }
+    for b in [64usize, 128, 256, 1024] {
+        if b < n && rng.chance(2, 3) { add(b - 1 - rng.below(2) as usize, &mut sup); add(b + rng.below(2) as usize, &mut sup); }
+    }
+    if rng.bool() { add(n - 1, &mut sup); }
+    if rng.bool() { add(0, &mut sup); }
+    while sup.len() < k.min(4) || (sup.len() < k && rng.chance(2, 3)) {
+        let v = match rng.below(3) {
+            0 => rng.below(n as u64) as usize,
+            1 => { let u = *rng.pick(&sup); (u + 64 * (1 + rng.below(4) as usize)) % n }   // congruent to a member
+            _ => { let u = *rng.pick(&sup); if u > 0 { u - 1 } else { u + 1 } }
+        };
+        add(v, &mut sup);
+    }
+    sup.sort();
+    sup
+}
+
+/// a variable list mixing present / absent / congruent-mod-64 variables, repeats, and (rarely) non-variables
+fn wide_list(rng: &mut Rng64, n: usize, sup: &[usize]) -> Vec<usize> {
+    let mut vs: Vec<usize> = vec![];
+    let len = rng.below(5) as usize;
+    for _ in 0..len {
+        let u = *rng.pick(sup);
+        let v = match rng.below(8) {
+            0 | 1 | 2 => u,                                                       // a support variable
+            3 => u % 64,                                                          // its residue modulo 64
+            4 => (u + 64 * (1 + rng.below(3) as usize)) % n,                      // congruent, usually absent
+            5 => if u >= 64 { u - 64 } else { u + 64 },                           // congruent neighbour word
+            6 => rng.below(n as u64) as usize,                                    // anything
+            _ => if rng.chance(1, 4) { n + rng.below(70) as usize } else { (u + 1) % n },  // not a variable / neighbour
+        };
+        if !vs.contains(&v) { vs.push(v); }
+    }
+    vs
+}
+
+/// the wide stream: few-node diagrams spread over many variables through every quantifier entry point
+fn gen_wide(rng: &mut Rng64, out: &mut Out, pairs: usize) {
+    for i in 0..pairs {
+        let n = match i % 6 {
+            0 => 65 + rng.below(8) as usize,           // just above one machine word
+            1 | 2 => 65 + rng.below(236) as usize,      // 65 .. 300
+            3 => 120 + rng.below(20) as usize,         // around 128
+            4 => 1030 + rng.below(150) as usize,       // ~1 100
+            _ => 39000 + rng.below(2000) as usize,     // ~40 000
+        };
+        let k = 6 + rng.below(5) as usize;
+        let sup = wide_support(rng, n, k);
+        let pick_sub = |rng: &mut Rng64| -> Vec<usize> {
+            let mut sub: Vec<usize> = sup.iter().cloned().filter(|_| rng.chance(2, 3)).collect();
+            if sub.is_empty() { sub.push(sup[0]); }
+            if sub.len() > 7 { sub.truncate(7); }
+            sub
+        };
+        let (sl, sr) = (pick_sub(rng), pick_sub(rng));
+        let l = wide_bdd(n, &sl, &small_fn(rng, sl.len()));
+        let r = wide_bdd(n, &sr, &small_fn(rng, sr.len()));
+        // unary entry points on L
+        for _ in 0..2 {
+            let vs = wide_list(rng, n, &sup);
+            run("C03.exists", &[l.clone(), fmt_usizes(&vs), fmt_usizes(&reorder(rng, &vs))], out);
+            let vs = wide_list(rng, n, &sup);
+            run("C03.forall", &[l.clone(), fmt_usizes(&vs), fmt_usizes(&reorder(rng, &vs))], out);
+        }
+        let mut xs: Vec<usize> = vec![*rng.pick(&sl), *rng.pick(&sup)];
+        let u = *rng.pick(&sl);
+        xs.push(u % 64);
+        xs.push(if u >= 64 { u - 64 } else { (u + 64) % n });
+        if rng.chance(1, 6) { xs.push(n + rng.below(3) as usize); }   // check_flip_bounds panics
+        for x in xs {
+            run("C03.varex", &[l.clone(), x.to_string()], out);
+            run("C03.varall", &[l.clone(), x.to_string()], out);
+        }
+        // binary entry points
+        let tabs = outer_tables(rng);
+        for _ in 0..2 {
+            let tab = rng.pick(&tabs).clone();
+            let vs = wide_list(rng, n, &sup);
+            quant_pair(rng, n, &tab, &l, &r, &vs, out, true);
+            let vs = wide_list(rng, n, &sup);
+            let inner = inner_choice(rng);
+            let tab = rng.pick(&tabs).clone();
+            run("C03.nestl", &[n.to_string(), tab.0, tab.1.to_string(), l.clone(), r.clone(), fmt_usizes(&vs), inner.0, inner.1.to_string(), s("sep")], out);
+        }
+        let tab = rng.pick(&tabs).clone();
+        let vs = wide_list(rng, n, &sup);
+        run("C03.chain", &[n.to_string(), tab.0, tab.1.to_string(), l.clone(), r.clone(), fmt_usizes(&vs), s(if rng.bool() { "alias" } else { "clone" })], out);
+    }
+}
+
+/// the aliasing stream: the same operand on both sides of every binary entry point, once as the very same
+/// object and once as a clone, for all 16 connectives (eager tables), inner or / and, several lists
+fn gen_alias(rng: &mut Rng64, out: &mut Out, ops: &[(usize, String)]) {
+    for (n, a) in ops {
+        let n = *n;
+        for c in 0..16u32 {
+            let table = if rng.chance(1, 4) { random_table2(rng, c) } else { eager_table2(c) };
+            let mut lists: Vec<Vec<usize>> = vec![vec![]];
+            if n > 0 { lists.push(subset(n, 1 + rng.below((1u64 << n) - 1) as usize)); }
+            for (j, vs) in lists.iter().enumerate() {
+                let v2 = reorder(rng, vs);
+                for form in ["alias", "clone"] {
+                    let ins = [n.to_string(), table.clone(), c.to_string(), a.clone(), a.clone(), fmt_usizes(vs), fmt_usizes(&v2), s(form)];
+                    // both quantifiers on the first list, a random one on the others
+                    let ex = rng.bool();
+                    if j == 0 || ex { run("C03.exqf", &ins, out); }
+                    if j == 0 || !ex { run("C03.allqf", &ins, out); }
+                }
+                let inner = inner_choice(rng);
+                for form in ["alias", "clone"] {
+                    run("C03.nestl", &[n.to_string(), table.clone(), c.to_string(), a.clone(), a.clone(), fmt_usizes(vs), inner.0.clone(), inner.1.to_string(), s(form)], out);
+                }
+            }
+            if rng.chance(1, 4) {
+                let vs = if n > 0 { subset(n, rng.below(1 << n) as usize) } else { vec![] };
+                for form in ["alias", "clone"] {
+                    run("C03.chain", &[n.to_string(), table.clone(), c.to_string(), a.clone(), a.clone(), fmt_usizes(&vs), s(form)], out);
+                }
+            }
+        }
+    }
+}
+
 pub fn gen(tier: Tier, rng: &mut Rng64, out: &mut Out) {
     let thorough = tier == Tier::Thorough;
     // --- exhaustive: all pairs of functions over n <= 2, every outer table, every subset
@@ -186,6 +420,26 @@ pub fn gen(tier: Tier, rng: &mut Rng64, out: &mut Out) {
             }
         }
     }
+    // --- aliasing: the same operand passed twice (`&a, &a`) and as a clone, all 16 connectives
+    {
+        let mut ops: Vec<(usize, String)> = vec![];
+        for n in 0..=2usize {
+            let count = 1u64 << (1u64 << n);
+            for t in 0..count { ops.push((n, fmt_bdd(&bdd_of_tt(n, &tt_from_index(n, t))))); }
+        }
+        let k3 = if thorough { 256 } else { 16 };
+        for j in 0..k3 {
+            let t = if thorough { j as u64 } else { rng.below(256) };
+            ops.push((3, fmt_bdd(&bdd_of_tt(3, &tt_from_index(3, t)))));
+        }
+        for _ in 0..(if thorough { 400 } else { 12 }) {
+            let n = 4 + rng.below(3) as usize;
+            ops.push((n, fmt_bdd(&random_bdd(rng, n))));
+        }
+        gen_alias(rng, out, &ops);
+    }
+    // --- wide: few-node diagrams over 65 .. 40 000 variables (word boundaries, congruent variables)
+    gen_wide(rng, out, if thorough { 6000 } else { 150 });
     // --- operands with more than 65 536 nodes (pointers that do not fit 16 bits: memo keys, node indices):
     // a dense pseudo-random function over 20 variables (~107 000 nodes) through var_exists / var_for_all
     // on low / middle / high variables, exists / for_all over one or two variables, and
@@ -243,7 +497,7 @@ pub fn gen(tier: Tier, rng: &mut Rng64, out: &mut Out) {
             unary_all(rng, 3, l, out, &subsets);
         }
     }
-    let pairs3: u64 = if thorough { 65536 } else { 1000 };
+    let pairs3: u64 = if thorough { 65536 } else { 800 };
     for i in 0..pairs3 {
         let (a, b) = if thorough { ((i / 256) as usize, (i % 256) as usize) } else { (rng.below(256) as usize, rng.below(256) as usize) };
         let (l, r) = (&all3[a], &all3[b]);
@@ -268,7 +522,7 @@ pub fn gen(tier: Tier, rng: &mut Rng64, out: &mut Out) {
     // --- random operands over 4..6 variables (quick) / 4..8 (thorough); non-canonical operands;
     //     random subsets, all-variables-quantified cases (inner-cache sharing), lists mentioning
     //     variables outside the Bdd, arbitrary trigger masks
-    let rounds = if thorough { 120000 } else { 2400 };
+    let rounds = if thorough { 120000 } else { 2000 };
     for i in 0..rounds {
         if i % (rounds / big_half).max(1) == 0 { emit_big(&mut bigq, &bigs_ops, out); }
         let n = 4 + rng.below(if thorough { 5 } else { 3 }) as usize;
